@@ -117,21 +117,24 @@ Proof.
   destruct (existsb prr_is_px es); repeat split; reflexivity.
 Qed.
 
-Lemma prr_infer_hi cont prev vi : vi_px_len vi = Some 44 -> infer_version cont prev vi = V112.
-Proof. intros H. unfold infer_version. rewrite H. reflexivity. Qed.
+Lemma prr_infer_hi cont prev vi hr hc : vi_px_len vi = Some 44 -> infer_version2 cont prev vi hr hc = V112.
+Proof. intros H. unfold infer_version2. rewrite H. reflexivity. Qed.
 
-Lemma prr_infer_lo cont prev vi : vi_px_len vi <> Some 44 -> vi_sf_len vi = None -> vi_has_es vi = false ->
+Lemma prr_infer_lo cont prev vi hr hc : vi_px_len vi <> Some 44 -> vi_sf_len vi = None -> vi_has_es vi = false ->
   vi_er_id vi <> Some EXT_ID_112 ->
-  infer_version cont prev vi = if cont && match prev with V_unset => false | _ => true end then prev else V109.
+  infer_version2 cont prev vi hr hc =
+  if cont && match prev with V_unset => false | _ => true end
+  then match prev with V110 => if hc then V109 else prev | _ => prev end
+  else if hr then V109 else V110.
 Proof.
-  intros Hp Hs He Hr. unfold infer_version. rewrite Hs, He.
+  intros Hp Hs He Hr. unfold infer_version2. rewrite Hs, He.
   assert (E1 : opt_is (vi_px_len vi) 44 = false).
   { destruct (vi_px_len vi) as [l|]; [|reflexivity]. cbn [opt_is]. destruct (l =? 44) eqn:E; [|reflexivity].
     exfalso. apply Hp. f_equal. lia. }
   assert (E2 : match vi_er_id vi with Some i => zlist_eqb i EXT_ID_112 | None => false end = false).
   { destruct (vi_er_id vi) as [i|]; [|reflexivity]. destruct (zlist_eqb i EXT_ID_112) eqn:E; [|reflexivity].
     exfalso. apply Hr. f_equal. apply zlist_eqb_eq. exact E. }
-  rewrite E1, E2. cbn [opt_is orb]. destruct (cont && _); reflexivity.
+  rewrite E1, E2. cbn [opt_is orb]. destruct (cont && _); [reflexivity|]. destruct hr; reflexivity.
 Qed.
 
 (* ER identifiers of an area whose only possible ER entry is that of the version *)
